@@ -184,7 +184,35 @@ def build_harness(prop, log):
         open(mf, "w").write(src)
         shutil.copy(os.path.join(REPO, "go.sum"), os.path.join(BUILD, "go_%s_%d.sum" % (prop, os.getpid())))
         cmd += ["-modfile", mf]
-    rc, out = sh(cmd + ["./cmd/onetharness"], cwd=HARNESS, env=GOENV)
+    # Only this property's harness files (plus what they refer to) are compiled, so that a change of
+    # /repo that breaks the harness of another property does not break this check.
+    d = os.path.join(HARNESS, "cmd", "onetharness")
+    allf = sorted(f for f in os.listdir(d) if f.endswith(".go") and not f.endswith("_test.go"))
+    files = [f for f in allf if f == "main.go" or f.startswith("common") or re.match(r"%s(\D.*)?\.go$" % prop.lower(), f)]
+    rc, out = 1, ""
+    for _ in range(12):
+        rc, out = sh(cmd + [os.path.join("cmd", "onetharness", f) for f in files], cwd=HARNESS, env=GOENV)
+        if rc == 0:
+            break
+        missing = set(re.findall(r"undefined: (\w+)", out))
+        added = False
+        for name in missing:
+            for f in allf:
+                if f in files:
+                    continue
+                txt = open(os.path.join(d, f)).read()
+                if re.search(r"^(func|var|type|const) (\([^)]*\) )?%s\b" % re.escape(name), txt, re.M) or \
+                        re.search(r"^\t%s\s+(=|[A-Za-z*\[])" % re.escape(name), txt, re.M):
+                    files.append(f)
+                    added = True
+                    break
+        if not added:
+            break
+    if rc != 0 and len(files) < len(allf):
+        rc2, out2 = sh(cmd + ["./cmd/onetharness"], cwd=HARNESS, env=GOENV)
+        if rc2 == 0:
+            rc, out = rc2, out2
+    log.append("harness files: %s" % " ".join(files))
     log.append(out[-4000:])
     return rc == 0, out
 
